@@ -1,8 +1,10 @@
-(* C05 — FEEL parsing and evaluation are total: property theorems only.  Proofs: C05/Proofs.v, C05/Odometer.v, C05/LrBounds.v.
+(* C05 — FEEL parsing and evaluation are total: property theorems only.  Proofs: C05/Proofs.v, C05/Odometer.v, C05/LrBounds.v, C05/LrDriver.v,
+   C05/LrTermination.v, C05/LrTermDriver.v, C05/LexProgress.v.
    PARTIAL by nature: the theorems cover the machine-integer arithmetic, vector indexing and loop logic of the anchored code
    (model C05/Model.v, both the build with overflow checks, Debug, and the one without, Release); what the model cannot exhibit —
-   stack depth, the allocator, the regex engine, chrono / chrono-tz internals, the C decNumber kernel, termination of the LR loop —
-   is observed by the totality run of props/c05.py, not proved.
+   stack depth, the allocator, the regex engine, chrono / chrono-tz internals, the C decNumber kernel —
+   is observed by the totality run of props/c05.py, not proved.  Termination of the LR loop and progress of the lexer ARE proved (section
+   TERMINATION below) for the driver / lexer models, which the checks of C05 and C06 compare with the real parser and lexer.
    valid_len len: 0 <= len <= isize::MAX (every Vec / String length). *)
 From Coq Require Import ZArith List Bool.
 From DV Require Import C05.Model C05.Proofs C05.Odometer C05.LrBounds C05.LrDriver Gen.LalrTables Gen.LalrTokens.
@@ -92,7 +94,7 @@ Proof. exact lr_tables_in_bounds. Qed.
 
 (* ---- the driver loop itself (every table access checked, out of bounds = ROob): for EVERY sequence of tokens the lexer can return and
         every number of steps the run never leaves a table — the stack only ever holds valid states (induction over the run on top of two
-        single-step sweeps).  Termination and the stack-depth invariant (RUnderflow) are not covered. *)
+        single-step sweeps).  Termination and the stack-depth invariant (RUnderflow): C05_lr_driver_terminates below. *)
 Theorem C05_lr_driver_never_out_of_bounds : forall fuel ss toks, valid_stack ss -> Forall (fun c => In c all_token_values) toks ->
   LrDriver.run fuel ss toks <> ROob.
 Proof. exact lr_driver_never_out_of_bounds. Qed.
@@ -101,6 +103,94 @@ Proof. exact lr_parse_never_out_of_bounds. Qed.
 Example C05_lr_driver_examples :
   LrDriver.run 200 [0] [tok_StartExpression; tok_Numeric; tok_Plus; tok_Numeric] = RAccept /\ LrDriver.run 200 [0] [tok_StartExpression; tok_Plus] = RError.
 Proof. exact lr_driver_examples. Qed.
+
+(* ==== TERMINATION of the parser front end (C05.LrTermModel / LrTermination / LrTermDriver / LexProgress).  Finite checks on the tables
+        regenerated from feel-parser/src/lalr.rs (re-proved whenever lalr.rs changes), lifted to EVERY token sequence / every text. *)
+From DV Require C06.Model C06.Lexer C06.Lr C06.Actions C06.ActionsAutomaton C06.ActionsGlobal C10.Model.
+From DV Require Import C05.LrTermModel C05.LrTermination C05.LrTermDriver C05.LexProgressModel C05.LexProgress.
+
+(* ---- the loop of Parser::parse on the state stack alone (kstep / krun: shift, reduce + goto, default reductions, accept, error, over the
+        regenerated tables): for EVERY sequence of lookaheads the lexer can deliver (its error token, or a terminal of the grammar: lok) the
+        loop started in state 0 ends within fuel_bound n = 27 (n + 1) + 3 turns, n = number of tokens, and never finds the stack shorter than
+        the right-hand side it pops (KRStuck).  Weight argument: a shift adds at most W = 8, a reduction by a non-empty rule takes away at
+        least 1, at most K = 2 reductions of empty rules (mid-rule actions) follow each other under one lookahead. *)
+Theorem C05_lr_loop_terminates : forall ls fuel, Forall lok ls -> (fuel_bound (length ls) <= fuel)%nat ->
+  krun fuel [0] ls <> KRFuel /\ krun fuel [0] ls <> KRStuck.
+Proof. exact krun_parse_terminates. Qed.
+Theorem C05_lr_fuel_bound : forall n, fuel_bound n = (27 * (n + 1) + 3)%nat.
+Proof. exact fuel_bound_value. Qed.
+(* from any state stack that is a path of the automaton (links: C06.ActionsGlobal), with the measure as the bound *)
+Theorem C05_lr_loop_terminates_from : forall fuel ss xs ls, ActionsGlobal.links ss xs -> Forall lok ls -> (measure xs ss ls < fuel)%nat ->
+  krun fuel ss ls <> KRFuel /\ krun fuel ss ls <> KRStuck.
+Proof. exact krun_terminates. Qed.
+
+(* ---- the full parser model of C06 (Actions.frun: the three stacks and all 90 semantic actions; compared with the real parser on ~5.6 k token
+        lists per run of C06): on every list of lexer-shaped tokens it never runs out of fuel_bound turns; the 40 turns per token it gives
+        itself are never used up; with C06_parse_full_safe: the outcome is a tree or a syntax error, nothing else. *)
+Theorem C05_parser_terminates : forall toks fuel, Forall ActionsGlobal.tok_ok toks -> (fuel_bound (length toks) <= fuel)%nat ->
+  Actions.frun fuel Actions.pstate0 toks <> Actions.FFuel.
+Proof. exact frun_terminates. Qed.
+Theorem C05_parse_res_never_out_of_fuel : forall toks, Forall ActionsGlobal.tok_ok toks -> Actions.parse_res toks <> Actions.FFuel.
+Proof. exact parse_res_terminates. Qed.
+Theorem C05_parse_full_total : forall toks, Forall ActionsGlobal.tok_ok toks ->
+  (exists t, Actions.parse_res toks = Actions.FAccept t) \/ Actions.parse_res toks = Actions.FSyntax.
+Proof. exact parse_res_total. Qed.
+Theorem C05_parse_trace_never_out_of_fuel : forall toks, Forall ActionsGlobal.tok_ok toks -> fst (Actions.parse_trace toks) <> Actions.FFuel.
+Proof. exact parse_trace_terminates. Qed.
+(* the syntax-tree driver behind C06_tables_pairs / _triples *)
+Theorem C05_lr_cst_driver_terminates : forall toks : list Lr.ltok,
+  Forall (fun t => In (ActionsAutomaton.sym_of (fst t)) ActionsAutomaton.all_syms) toks ->
+  Lr.lr_parse toks <> Lr.OutOfFuel /\ Lr.lr_parse toks <> Lr.Stuck.
+Proof. exact lr_parse_terminates. Qed.
+
+(* ---- the checked driver of C05 (LrDriver.run): for every sequence of token types of the lexer and fuel_bound turns or more the run ends with
+        accept or a syntax error -- not out of fuel, not RUnderflow (state stack shorter than the right-hand side), not ROob.  This closes the
+        two items C05_lr_driver_never_out_of_bounds left open. *)
+Theorem C05_lr_driver_terminates : forall toks fuel, Forall (fun c => In c all_token_values) toks -> (fuel_bound (length toks) <= fuel)%nat ->
+  LrDriver.run fuel [0] toks = RAccept \/ LrDriver.run fuel [0] toks = RError.
+Proof. exact lr_driver_terminates. Qed.
+Example C05_lr_driver_terminates_example :
+  let toks := [tok_StartExpression; tok_LeftBracket; tok_Numeric; tok_Comma; tok_Numeric; tok_Comma; tok_Numeric; tok_RightBracket] in
+  fuel_bound (length toks) = 246%nat /\ LrDriver.run 246 [0] toks = RAccept /\
+  LrDriver.run 30 [0] toks = RAccept /\ LrDriver.run 29 [0] toks = RFuel.
+Proof. exact lr_driver_terminates_example. Qed.
+Example C05_parser_terminates_nonvacuous :
+  Forall ActionsGlobal.tok_ok parse_sample /\ (exists t, Actions.parse_res parse_sample = Actions.FAccept t) /\
+  Actions.frun 20 Actions.pstate0 parse_sample = Actions.FFuel /\ (fuel_bound (length parse_sample) = 192)%nat.
+Proof. exact parse_sample_facts. Qed.
+
+(* ---- the lexer (C06.Lexer.next_token, compared with Lexer::next_token token by token on ~8.6 k texts per run of C06): a call that returns a
+        token leaves strictly less input, so the token stream of n characters is complete after n + 1 calls; None of lex_go is a lexical error,
+        never the fuel; the trace the check compares ends with end-of-input / undefined / error; read_input (skip_layout, one turn per comment)
+        ends where nothing is left to skip and more turns change nothing; the part collector of consume_name stops by its break. *)
+Theorem C05_next_token_progress : forall keys fl cs t fl' rest,
+  Lexer.next_token keys fl cs = Lexer.RTok t fl' rest -> (length rest < length cs)%nat.
+Proof. exact next_token_progress. Qed.
+Theorem C05_lex_terminates : forall fuel keys fl cs, (length cs < fuel)%nat -> lex_run fuel keys fl cs <> LexFuel.
+Proof. exact lex_run_terminates. Qed.
+Theorem C05_lex_go_is_lex_run : forall fuel keys fl cs, Lexer.lex_go fuel keys fl cs = lexout_option (lex_run fuel keys fl cs).
+Proof. exact lex_go_lex_run. Qed.
+Theorem C05_lex_none_is_error : forall keys cs, Lexer.lex keys cs = None -> lex_run (S (length cs)) keys Lexer.flags0 cs = LexFail.
+Proof. exact lex_none_is_error. Qed.
+Theorem C05_lex_go_fuel : forall fuel keys fl cs, (length cs < fuel)%nat -> Lexer.lex_go fuel keys fl cs = Lexer.lex_from keys fl cs.
+Proof. exact lex_go_fuel. Qed.
+Theorem C05_lex_trace_complete : forall keys sched cs, exists items last, Lexer.trace keys sched cs = items ++ [last] /\ is_end last = true.
+Proof. exact trace_complete. Qed.
+Theorem C05_layout_scan_settles : forall f cs, (length cs <= f)%nat -> settled (C06.Model.skip_layout f cs).
+Proof. exact skip_layout_settled. Qed.
+Theorem C05_layout_scan_fuel : forall f g cs, (length cs <= f)%nat -> (length cs <= g)%nat -> C06.Model.skip_layout f cs = C06.Model.skip_layout g cs.
+Proof. exact skip_layout_fuel. Qed.
+Theorem C05_name_collector_stops : forall inp pos s p a,
+  C10.Model.machine (4 * S (length inp)) inp C10.Model.S1 pos
+    {| C10.Model.a_parts := []; C10.Model.a_cps := []; C10.Model.a_cur := [C10.Model.ch inp pos] |} = (s, p, a) ->
+  C10.Model.step inp s p a = None.
+Proof. exact collect_stops. Qed.
+Example C05_lex_progress_example :
+  let cs := [49; 32; 47; 42; 32; 99; 32; 42; 47; 32; 43; 32; 97; 98; 32]%N in
+  lex_run (S (length cs)) [[97; 98]%N] Lexer.flags0 cs = LexOk [Lexer.LNum [49%N] []; Lexer.LSym Lexer.SPlus; Lexer.LName [97; 98]%N] /\
+  lex_run 3 [[97; 98]%N] Lexer.flags0 cs = LexFuel /\
+  C06.Model.skip_layout 3 [47; 42; 42; 32; 42; 42; 47; 49]%N = [49%N].
+Proof. exact lex_progress_example. Qed.
 
 (* ---- non-vacuity *)
 Example C05_nonvacuous :
@@ -173,3 +263,24 @@ Print Assumptions C05_odometer_orig_refuted.
 Print Assumptions C05_lr_driver_never_out_of_bounds.
 Print Assumptions C05_lr_parse_never_out_of_bounds.
 Print Assumptions C05_lr_driver_examples.
+Print Assumptions C05_lr_loop_terminates.
+Print Assumptions C05_lr_fuel_bound.
+Print Assumptions C05_lr_loop_terminates_from.
+Print Assumptions C05_parser_terminates.
+Print Assumptions C05_parse_res_never_out_of_fuel.
+Print Assumptions C05_parse_full_total.
+Print Assumptions C05_parse_trace_never_out_of_fuel.
+Print Assumptions C05_lr_cst_driver_terminates.
+Print Assumptions C05_lr_driver_terminates.
+Print Assumptions C05_lr_driver_terminates_example.
+Print Assumptions C05_parser_terminates_nonvacuous.
+Print Assumptions C05_next_token_progress.
+Print Assumptions C05_lex_terminates.
+Print Assumptions C05_lex_go_is_lex_run.
+Print Assumptions C05_lex_none_is_error.
+Print Assumptions C05_lex_go_fuel.
+Print Assumptions C05_lex_trace_complete.
+Print Assumptions C05_layout_scan_settles.
+Print Assumptions C05_layout_scan_fuel.
+Print Assumptions C05_name_collector_stops.
+Print Assumptions C05_lex_progress_example.
